@@ -4,11 +4,12 @@ import OpcuaVerif.Lemmas.C42
 C42 — JSON encoding of the built-in types round-trips (`from_value(to_value(x)) = x`).
 Property theorems only; model `OpcuaVerif.Model.C42`, lemmas `OpcuaVerif.Lemmas.C42`.
 
-`cfg = current mask` is the source after the two `fix:` commits; `mask` = union of the defined
+`cfg = current mask` is the source after the four `fix:` commits; `mask` = union of the defined
 StatusCode bits.  `WFVar`/`WFDVal` are the property's quantifier: integer ranges of the variant kinds,
 millisecond DateTimes within 1601..9999 (`WFDT`), non-empty NodeId identifiers (`WFNode`), status codes
-made of defined bits, ExpandedNodeId WITHOUT namespace URI (recorded finding), no arrays (recorded
-finding), and for every `Float` leaf the shortest-decimal law `floatBody cfg (float32J b) = b` — the
+made of defined bits, ExpandedNodeId with a namespace URI only together with namespace index 0 (the one
+`Namespace` slot of the JSON form; recorded finding for URI + index ≠ 0), no arrays (serialisation is an
+error; recorded finding), and for every `Float` leaf the shortest-decimal law `floatBody cfg (float32J b) = b` — the
 `ryu`/`f64::from_str` codec law for that value, which is an executable, decidable statement (see the
 examples) but is not proved for all 2^32 patterns.
 -/
@@ -40,10 +41,12 @@ theorem status_json_roundtrip (mask c : Nat) (h : c ≤ 4294967295) (hm : c &&& 
 
 theorem nodeid_json_roundtrip (n : NodeId) (h : WFNode n) : nodeIdFromJ (nodeIdJ n) = some n := nodeId_rt n h
 
-/-- PARTIAL: only ExpandedNodeIds without namespace URI — the JSON form written by the code has no
-field for the URI (recorded finding `C42-expanded-nodeid-uri`, `C42_counterexample_expanded_uri`). -/
-theorem expnodeid_json_roundtrip_partial (e : ExpNodeId) (hu : e.uri = none) (hs : e.svr ≤ 4294967295)
-    (h : WFNode e.node) : expNodeIdFromJ (expNodeIdJ e) = some e := expNodeId_rt e hu hs h
+/-- ExpandedNodeId: every value without namespace URI, and (current source) every value with a
+namespace URI and namespace index 0.  PARTIAL only in that the JSON form — like Part 6 — has a single
+`Namespace` slot: a URI together with an index ≠ 0 loses the index (`C42_counterexample_expanded_uri_index`). -/
+theorem expnodeid_json_roundtrip_partial (uriJson : Bool) (e : ExpNodeId)
+    (hu : e.uri = none ∨ (uriJson = true ∧ e.node.ns = 0)) (hs : e.svr ≤ 4294967295)
+    (h : WFNode e.node) : expNodeIdFromJ uriJson (expNodeIdJ uriJson e) = some e := expNodeId_rt uriJson e hu hs h
 
 theorem qname_json_roundtrip (q : QName) (h : q.ns ≤ 65535) : qnameFromJ (qnameJ q) = some q := qname_rt q h
 
@@ -53,13 +56,13 @@ theorem ltext_json_roundtrip (l : LText) : ltextFromJ (ltextJ l) = some l := lte
 serialiser returns a tree, the deserialiser maps it back to the same value. PARTIAL in the sense of
 `WFVar` (see the module comment): no arrays, no namespace URIs, Float leaves under the codec law. -/
 theorem variant_json_roundtrip_partial (cfg : Cfg) (v : Var) (h : WFVar cfg v) (fuel : Nat) (hf : v.depth ≤ fuel)
-    (j : Json) (hj : varJ v = .ok j) : varFromJ cfg fuel j = .ok v := var_rt cfg v h fuel hf j hj
+    (j : Json) (hj : varJ cfg v = .ok j) : varFromJ cfg fuel j = .ok v := var_rt cfg v h fuel hf j hj
 
 theorem datavalue_json_roundtrip_partial (cfg : Cfg) (d : DVal) (h : WFDVal cfg d) (fuel : Nat) (hf : d.depth ≤ fuel)
-    (j : Json) (hj : dvalJ d = .ok j) : dvalFromJ cfg fuel j = .ok d := dval_rt cfg d h fuel hf j hj
+    (j : Json) (hj : dvalJ cfg d = .ok j) : dvalFromJ cfg fuel j = .ok d := dval_rt cfg d h fuel hf j hj
 
 /-- serialisation of a well-formed Variant never panics and never fails -/
-theorem variant_serialises (cfg : Cfg) : ∀ (v : Var), WFVar cfg v → ∃ j, varJ v = .ok j
+theorem variant_serialises (cfg : Cfg) : ∀ (v : Var), WFVar cfg v → ∃ j, varJ cfg v = .ok j
   | .empty, _ => ⟨_, rfl⟩ | .bool _, _ => ⟨_, rfl⟩ | .sbyte _, _ => ⟨_, rfl⟩ | .byte _, _ => ⟨_, rfl⟩
   | .i16 _, _ => ⟨_, rfl⟩ | .u16 _, _ => ⟨_, rfl⟩ | .i32 _, _ => ⟨_, rfl⟩ | .u32 _, _ => ⟨_, rfl⟩
   | .i64 _, _ => ⟨_, rfl⟩ | .u64 _, _ => ⟨_, rfl⟩ | .float _, _ => ⟨_, rfl⟩ | .double _, _ => ⟨_, rfl⟩
@@ -99,19 +102,32 @@ theorem C42_counterexample_f32max_pinned : floatBody (pinned 0) (some (float32J 
 
 /-- pinned: `Variant::XmlElement(null)` writes a null body that the deserialiser rejects -/
 theorem C42_counterexample_xml_null_pinned :
-    (match varJ (.xml none) with
+    (match varJ (pinned 0) (.xml none) with
      | .ok j => (varFromJ (pinned 0) 2 j).isErr
      | _ => false) = true := by decide
 
-/-! ### recorded findings of the current source -/
-
-/-- serialising any array variant panics -/
-theorem C42_counterexample_array_panics : (varJ .array).isPanic = true ∧
-    (varJ (.variant .array)).isPanic = true ∧ (dvalJ (.mk (some .array) none none none none none)).isPanic = true := by
+/-- pinned: serialising any array variant panicked (directly, nested in a Variant, in a DataValue) -/
+theorem C42_counterexample_array_panics_pinned : (varJ (pinned 0) .array).isPanic = true ∧
+    (varJ (pinned 0) (.variant .array)).isPanic = true ∧
+    (dvalJ (pinned 0) (.mk (some .array) none none none none none)).isPanic = true := by
   decide
 
-/-- the namespace URI of an ExpandedNodeId is not written: it comes back null -/
-theorem C42_counterexample_expanded_uri :
-    expNodeIdFromJ (expNodeIdJ ⟨⟨0, .numeric 5⟩, some ['u'], 0⟩) = some ⟨⟨0, .numeric 5⟩, none, 0⟩ := by decide
+/-- pinned: the namespace URI of an ExpandedNodeId was not written: it came back null -/
+theorem C42_counterexample_expanded_uri_pinned :
+    expNodeIdFromJ false (expNodeIdJ false ⟨⟨0, .numeric 5⟩, some ['u'], 0⟩) = some ⟨⟨0, .numeric 5⟩, none, 0⟩ := by decide
+
+/-! ### recorded findings of the current source -/
+
+/-- array variants still cannot be serialised (an error now, no panic) -/
+theorem C42_counterexample_array_not_serialisable : (varJ (current 0) .array).isErr = true ∧
+    (varJ (current 0) (.variant .array)).isErr = true ∧
+    (dvalJ (current 0) (.mk (some .array) none none none none none)).isErr = true := by
+  decide
+
+/-- a namespace URI takes the `Namespace` slot: a namespace index ≠ 0 next to it is lost -/
+theorem C42_counterexample_expanded_uri_index :
+    expNodeIdFromJ true (expNodeIdJ true ⟨⟨2, .numeric 5⟩, some ['u'], 0⟩) = some ⟨⟨0, .numeric 5⟩, some ['u'], 0⟩ := by decide
+
+example : expNodeIdFromJ true (expNodeIdJ true ⟨⟨0, .numeric 5⟩, some ['u'], 7⟩) = some ⟨⟨0, .numeric 5⟩, some ['u'], 7⟩ := by decide
 
 end OpcuaVerif.C42
